@@ -58,7 +58,7 @@ def extra_terms(tier):
 
 
 def has_alias(t):
-    return any(x[0] in ("alias", "fwd", "subst") for x in subterms(t))
+    return any(x[0] in ("alias", "ualias", "fwd", "subst") for x in subterms(t))
 
 
 def nonfinite(s):
